@@ -389,6 +389,13 @@ class SerExecutor(ETreeMixin, Executor):
             return [(st, PTok("cls", sp.norm(sp.ite((V.is_DC(v.t), V.cls(v.t)), sv("<builtin>")))))]
         return self.havoc_call(st, "type", args, node)
 
+    def to_str(self, st, v, formatted=False):
+        if isinstance(v, PV) and not formatted:          # f"{x}" == str(x)
+            r = self.b_str(st, v, None)
+            if r is not None:
+                return r
+        return super().to_str(st, v, formatted)
+
     def b_str(self, st, v, node):
         if isinstance(v, VStr):
             return v
@@ -513,7 +520,7 @@ class SerExecutor(ETreeMixin, Executor):
         return None
 
     def contains(self, st, container, item, node):
-        if isinstance(item, (PH, VType)) or (isinstance(item, VFunc) and item.how == "ext"):
+        if isinstance(item, (PH, VType)) or (isinstance(item, VFunc) and item.how == "ext") or (isinstance(item, PTok) and item.what in ("origin", "cls")):
             items = self.concrete_items(st, container)
             if items is not None:
                 terms = []
@@ -770,8 +777,8 @@ class SerExecutor(ETreeMixin, Executor):
         if what == "seq":
             return self._comp_over_seq(n, g, st, coll, kind)
         if what == "clsfields":
-            if kind != "set" or ast.unparse(n.elt) != f"{ast.unparse(g.target)}.name":
-                self.unsupported(n, "comprehension over fields(cls) other than the set of field names")
+            if kind == "dict" or ast.unparse(n.elt) != f"{ast.unparse(g.target)}.name":
+                self.unsupported(n, "comprehension over fields(cls) other than the collection of field names")
             return [(st, PTok("nameset", coll))]
         # arbitrary element
         if what == "list":
@@ -933,15 +940,15 @@ class SerExecutor(ETreeMixin, Executor):
 
     # ---------------------------------------------------------------- loops --
     # -------------------------------------------------- loop == comprehension --
-    def loop_as_comprehension(self, s, st, it):
-        """`acc = [] / {}` ... `for x in C: [t = e]* ; acc.append(E) | acc[K] = E` over a symbolic collection C is the
-        comprehension `[E for x in C]` / `{K: E for x in C}` (temporaries substituted; PY-ORDER: K before E).  Exact when
-        the shape matches (fresh empty accumulator without aliases, body = pure temporaries + one append/store, no
-        break/continue/else, the accumulator not read in the body); returns None otherwise."""
+    @staticmethod
+    def loop_comp_expr(s, acc_hint=None):
+        """(accumulator name, comprehension AST) for a loop of the shape `for x in C: [t = e]* ; acc.append(E) | acc[K] = E`
+        (inner `acc2 = [] ; for ...` pairs are folded first), or None."""
         import copy
-        if s.orelse or not s.body or self._iter_view(st, it) is None:
+        if s.orelse or not s.body:
             return None
-        *temps, last = s.body
+        body = SerExecutor.fold_accumulations(s.body)
+        *temps, last = body
         tmap = {}
         for t in temps:
             if isinstance(t, ast.Assign) and len(t.targets) == 1 and isinstance(t.targets[0], ast.Name):
@@ -962,18 +969,11 @@ class SerExecutor(ETreeMixin, Executor):
             acc, key, elt = last.targets[0].value.id, last.targets[0].slice, last.value
         else:
             return None
-        cur = st.frame.env.get(acc)
-        if not isinstance(cur, VRef):
+        if acc_hint is not None and acc != acc_hint:
             return None
-        o = st.obj(cur.ref)
-        if not ((o.kind == "list" and key is None and o.data == []) or (o.kind == "dict" and key is not None and o.data == {})) or not o.fresh:
-            return None
-        for fr in st.frames:                       # no alias of the accumulator
-            for nm, v in fr.env.items():
-                if isinstance(v, VRef) and v.ref == cur.ref and not (fr is st.frame and nm == acc):
-                    return None
         used = {n.id for part in [s.iter, elt] + ([key] if key is not None else []) + list(tmap.values()) for n in ast.walk(part) if isinstance(n, ast.Name)}
-        if acc in used or any(isinstance(n, (ast.Yield, ast.YieldFrom, ast.NamedExpr, ast.Await)) for part in s.body for n in ast.walk(part)):
+        if acc in used or acc in tmap or any(isinstance(n, (ast.Yield, ast.YieldFrom, ast.NamedExpr, ast.Await, ast.Break, ast.Continue))
+                                                for part in body for n in ast.walk(part)):
             return None
 
         class Sub(ast.NodeTransformer):
@@ -983,12 +983,67 @@ class SerExecutor(ETreeMixin, Executor):
                 return n
         elt2 = Sub().visit(copy.deepcopy(elt))
         gen = ast.comprehension(target=s.target, iter=s.iter, ifs=[], is_async=0)
-        if key is None:
-            comp = ast.ListComp(elt=elt2, generators=[gen])
-        else:
-            comp = ast.DictComp(key=Sub().visit(copy.deepcopy(key)), value=elt2, generators=[gen])
+        comp = ast.ListComp(elt=elt2, generators=[gen]) if key is None else ast.DictComp(key=Sub().visit(copy.deepcopy(key)), value=elt2, generators=[gen])
         ast.copy_location(comp, s)
         ast.fix_missing_locations(comp)
+        return acc, comp, key is not None
+
+    @staticmethod
+    def fold_accumulations(stmts):
+        """`x = [] / {}` immediately followed by an accumulation loop on x  ==>  `x = <comprehension>` (exact)."""
+        out, i = [], 0
+        while i < len(stmts):
+            a = stmts[i]
+            nxt = stmts[i + 1] if i + 1 < len(stmts) else None
+            name = val = None
+            if isinstance(a, ast.Assign) and len(a.targets) == 1 and isinstance(a.targets[0], ast.Name):
+                name, val = a.targets[0].id, a.value
+            elif isinstance(a, ast.AnnAssign) and isinstance(a.target, ast.Name) and a.value is not None:
+                name, val = a.target.id, a.value
+            empty_list = isinstance(val, ast.List) and not val.elts or (isinstance(val, ast.Call) and getattr(val.func, "id", None) == "list" and not val.args and not val.keywords)
+            empty_dict = isinstance(val, ast.Dict) and not val.keys or (isinstance(val, ast.Call) and getattr(val.func, "id", None) == "dict" and not val.args and not val.keywords)
+            if name and (empty_list or empty_dict) and isinstance(nxt, ast.For):
+                r = SerExecutor.loop_comp_expr(nxt, acc_hint=name)
+                if r is not None and r[2] == bool(empty_dict):
+                    new = ast.Assign(targets=[ast.Name(id=name, ctx=ast.Store())], value=r[1])
+                    ast.copy_location(new, a)
+                    ast.fix_missing_locations(new)
+                    out.append(new)
+                    i += 2
+                    continue
+            out.append(a)
+            i += 1
+        return out
+
+    def exec_block(self, stmts, st):
+        key = id(stmts)
+        cache = self.__dict__.setdefault("_fold_cache", {})
+        if key not in cache:
+            try:
+                folded = self.fold_accumulations(list(stmts))
+            except Exception:  # noqa  (an unexpected AST shape: leave the block as it is)
+                folded = list(stmts)
+            cache[key] = (stmts, folded if len(folded) != len(stmts) else stmts)
+        return super().exec_block(cache[key][1], st)
+
+    def loop_as_comprehension(self, s, st, it):
+        """Accumulation loop over a symbolic collection into a fresh, unaliased, still empty accumulator == comprehension."""
+        if self._iter_view(st, it) is None:
+            return None
+        r = self.loop_comp_expr(s)
+        if r is None:
+            return None
+        acc, comp, is_dict = r
+        cur = st.frame.env.get(acc)
+        if not isinstance(cur, VRef):
+            return None
+        o = st.obj(cur.ref)
+        if not ((o.kind == "list" and not is_dict and o.data == []) or (o.kind == "dict" and is_dict and o.data == {})) or not o.fresh:
+            return None
+        for fr in st.frames:                       # no alias of the accumulator
+            for nm, v in fr.env.items():
+                if isinstance(v, VRef) and v.ref == cur.ref and not (fr is st.frame and nm == acc):
+                    return None
         outs = []
         for (s2, v) in self.ev(comp, st):
             s2.bind(acc, v)
@@ -1001,6 +1056,9 @@ class SerExecutor(ETreeMixin, Executor):
             as_comp = self.loop_as_comprehension(s, s2, it)
             if as_comp is not None:
                 outs.extend(as_comp)
+                continue
+            if isinstance(it, PTok) and it.what == "clsfields":
+                outs.extend(self.for_nameset(s, s2, it.a, as_field=True))
                 continue
             if isinstance(it, PTok) and it.what == "fields":
                 outs.extend(self.for_fields(s, s2, it.a, it.b))
@@ -1073,7 +1131,7 @@ class SerExecutor(ETreeMixin, Executor):
             elif o is not None and o.kind == "pvmap":
                 st.heap[ref] = HeapObj("pvmap", (z3.Const(fresh_name("has"), z3.ArraySort(sp.S, sp.B)), z3.Const(fresh_name("val"), z3.ArraySort(sp.S, V))), None, o.fresh)
 
-    def for_nameset(self, s, st, cls):
+    def for_nameset(self, s, st, cls, as_field=False):
         """for name in {f.name for f in fields(cls)}: every field name exactly once, in arbitrary order.
         Invariant sees lc.extra['seen'] (Array String->Bool: processed names)."""
         spec = self.kind_loop_spec(s, "nameset")
@@ -1101,7 +1159,7 @@ class SerExecutor(ETreeMixin, Executor):
         body.assume(z3.ForAll([q], z3.Implies(z3.Select(seen, q), isfield(q)), patterns=[z3.Select(seen, q)]))
         body.assume(z3.And(isfield(nm), z3.Not(z3.Select(seen, nm))))
         body.assume(self._b(spec.inv(LoopCtx(self, body, None, entry, extra={"seen": seen, "cls": cls}))))
-        for s3 in self.assign(s.target, VStr(nm), body):
+        for s3 in self.assign(s.target, PTok("field", nm, None) if as_field else VStr(nm), body):
             for o in self.exec_block(s.body, s3):
                 if o.kind in ("fall", "continue"):
                     self.add_vc("inv-preserve", label, o.st.pc, self._b(spec.inv(LoopCtx(self, o.st, None, entry, extra={"seen": z3.Store(seen, nm, T), "cls": cls}))),
